@@ -67,10 +67,13 @@ Blank == [up |-> FALSE, term |-> 0, vote |-> 0, role |-> "F", lead |-> 0, log |-
           offTerm |-> 0, commit |-> 0, applied |-> 0, stable |-> 0, psnap |-> NoSnap,
           voters |-> {}, learners |-> {}, isl |-> FALSE, pc |-> FALSE, vg |-> {}, vr |-> {},
           match |-> [j \in Server |-> 0], nx |-> [j \in Server |-> 1], tr |-> 0, out |-> {},
-          phs |-> NoHS, pss |-> <<0, "F">>, appq |-> <<>>]
+          phs |-> NoHS, pss |-> <<0, "F">>, appq |-> <<>>,
+          ro |-> <<>>,   \* leader: pending ReadIndex requests in arrival order [ctx, idx, from, acks] (raft/read_only.go)
+          rs |-> {},     \* ReadStates [ctx, idx] not yet carried by a Ready (raft.readStates)
+          rq |-> {}]     \* requests issued HERE: [ctx, floor] (floor = highest index reported committed by then)
 NoDur == [hs |-> NoHS, shs |-> NoHS, log |-> <<>>, off |-> 0, offTerm |-> 0, snap |-> NoSnap]
 NoRd  == [has |-> FALSE, first |-> 0, ents |-> <<>>, hsset |-> FALSE, hs |-> NoHS, snap |-> NoSnap,
-          msgs |-> {}, hfrom |-> 0, hto |-> 0, nl |-> FALSE, soft |-> FALSE,
+          msgs |-> {}, reads |-> {}, hfrom |-> 0, hto |-> 0, nl |-> FALSE, soft |-> FALSE,
           pents |-> FALSE, phs |-> FALSE, sent |-> FALSE, confs |-> 0]
 
 -------------------------------------------------------------------------------
@@ -95,7 +98,7 @@ UpToDate(s, idx, lt) == \/ Mut = "uptodate"
 ResetS(s, i, term) ==
   [s EXCEPT !.term = term,
             !.vote = IF term = s.term \/ Mut = "votereset" THEN s.vote ELSE 0,
-            !.lead = 0, !.vg = {}, !.vr = {}, !.tr = 0, !.pc = FALSE,
+            !.lead = 0, !.vg = {}, !.vr = {}, !.tr = 0, !.pc = FALSE, !.ro = <<>>,
             !.match = [j \in Server |-> IF j = i THEN Last(s) ELSE 0],
             !.nx = [j \in Server |-> Last(s) + 1]]
 BecomeFollower(s, i, term, lead) == [ResetS(s, i, term) EXCEPT !.role = "F", !.lead = lead]
@@ -174,7 +177,7 @@ HandleAppend(i, s, m) ==
 
 HandleHeartbeat(i, s, m) ==
   IF m.c > Last(s) /\ m.c > s.commit THEN {}      \* commitTo panics
-  ELSE {Res([s EXCEPT !.commit = Max(@, m.c)], {Resp("MsgHeartbeatResp", i, m.from, s.term, 0, FALSE, 0)})}
+  ELSE {Res([s EXCEPT !.commit = Max(@, m.c)], {Resp("MsgHeartbeatResp", i, m.from, s.term, 0, FALSE, m.hint)})}
 
 \* ---- snapshot (raft.handleSnapshot / restore)
 HandleSnapshot(i, s, m) ==
@@ -241,15 +244,60 @@ HandleAppResp(i, s, m) ==
        IN IF up /\ s.tr = m.from /\ s2.match[m.from] = Last(s2)
           THEN Res(s2, {TimeoutNow(i, s2, m.from)}) ELSE Res(s2, {})
 
+\* ---- linearizable reads, ReadOnlySafe (raft.go stepLeader/stepFollower MsgReadIndex, read_only.go).
+\* On heartbeats, heartbeat responses and read-index messages the field `hint` carries the request id.
+\* The design (raft thesis 6.4): the leader must have committed an entry of its term, takes its commit
+\* index as the read index, and releases it after a heartbeat round acknowledged by a MAJORITY OF THE
+\* VOTERS.  (ReadOnlyLeaseBased is not modelled: node/raft.go runs the default, ReadOnlySafe.)
+ReadHB(i, s, c) == {Msg("MsgHeartbeat", i, j, s.term, 0, 0, Min(s.match[j], s.commit), <<>>, FALSE, c, NoSnap, FALSE)
+                    : j \in Members(s) \ {i}}
+ReadResp(i, s, to, c, idx) == Msg("MsgReadIndexResp", i, to, s.term, idx, 0, 0, <<>>, FALSE, c, NoSnap, FALSE)
+ReadFloor == Len(gc)
+\* c = request id; from = 0 for a request issued at this replica, else the forwarding replica
+ReadReqRes(i, s, c, from) ==
+  LET s0 == IF from = 0 THEN [s EXCEPT !.rq = @ \cup {[ctx |-> c, floor |-> ReadFloor]}] ELSE s
+      local == from = 0 \/ from = i
+  IN IF s.role = "L"
+     THEN IF QuorumN(s.voters) > 1
+          THEN IF TermAt(s, s.commit) # s.term /\ Mut # "readnotermcheck" THEN Res(s0, {})
+               ELSE IF \E k \in 1..Len(s.ro) : s.ro[k].ctx = c THEN Res(s0, ReadHB(i, s, c))
+               ELSE IF Mut = "readnoquorum"
+               THEN (IF local THEN Res([s0 EXCEPT !.rs = @ \cup {[ctx |-> c, idx |-> s.commit]}], {})
+                     ELSE Res(s0, {ReadResp(i, s, from, c, s.commit)}))
+               ELSE Res([s0 EXCEPT !.ro = Append(@, [ctx |-> c, idx |-> s.commit, from |-> from, acks |-> {}])],
+                        ReadHB(i, s, c))
+          ELSE IF local THEN Res([s0 EXCEPT !.rs = @ \cup {[ctx |-> c, idx |-> s.commit]}], {})
+               ELSE Res(s0, {ReadResp(i, s, from, c, s.commit)})
+     ELSE IF s.role = "F" /\ s.lead # 0
+     THEN Res(s0, {Msg("MsgReadIndex", i, s.lead, 0, 0, 0, 0, <<>>, FALSE, c, NoSnap, FALSE)})
+     ELSE Res(s0, {})
+\* heartbeat response that carries a request id
+HandleReadAck(i, s, m) ==
+  LET ks == {k \in 1..Len(s.ro) : s.ro[k].ctx = m.hint} IN
+  IF ks = {} THEN Ignore(s)
+  ELSE LET k == SetMin(ks)
+           acks2 == s.ro[k].acks \cup {m.from}
+           counted == IF Mut = "readlearnerack" THEN acks2 ELSE acks2 \cap s.voters
+       IN IF Cardinality(counted) + 1 < QuorumN(s.voters)
+          THEN Res([s EXCEPT !.ro[k].acks = acks2], {})
+          ELSE LET rel == SubSeq(s.ro, 1, k)
+                   R == {rel[x] : x \in 1..k}
+                   mine == {r \in R : r.from = 0 \/ r.from = i}
+               IN Res([s EXCEPT !.ro = SubSeq(@, k + 1, Len(@)),
+                                !.rs = @ \cup {[ctx |-> r.ctx, idx |-> r.idx] : r \in mine}],
+                      {ReadResp(i, s, r.from, r.ctx, r.idx) : r \in R \ mine})
+
 \* ---- dispatch by role after the term rules
 Dispatch(i, s, m) ==
   IF m.t \in {"MsgVote", "MsgPreVote"} THEN {HandleVoteReq(i, s, m)}
   ELSE IF m.t = "MsgProp" THEN {IF Len(m.ents) = 1 THEN ProposeRes(i, s, m.ents[1]) ELSE Ignore(s)}
   ELSE IF m.t = "MsgTransferLeader" THEN {TransferRes(i, s, m.from)}
+  ELSE IF m.t = "MsgReadIndex" THEN {ReadReqRes(i, s, m.hint, m.from)}
   ELSE IF s.role = "L"
   THEN IF m.from \notin Members(s) THEN {Ignore(s)}
        ELSE IF m.t = "MsgAppResp" THEN {HandleAppResp(i, s, m)}
-       ELSE {Ignore(s)}                                   \* heartbeat responses etc.: flow control only
+       ELSE IF m.t = "MsgHeartbeatResp" /\ m.hint # 0 THEN {HandleReadAck(i, s, m)}
+       ELSE {Ignore(s)}                                   \* other heartbeat responses: flow control only
   ELSE IF s.role \in {"C", "P"}
   THEN IF m.t = "MsgApp" THEN HandleAppend(i, BecomeFollower(s, i, m.term, m.from), m)
        ELSE IF m.t = "MsgHeartbeat" THEN HandleHeartbeat(i, BecomeFollower(s, i, m.term, m.from), m)
@@ -261,6 +309,7 @@ Dispatch(i, s, m) ==
        ELSE IF m.t = "MsgHeartbeat" THEN HandleHeartbeat(i, [s EXCEPT !.lead = m.from], m)
        ELSE IF m.t = "MsgSnap" THEN HandleSnapshot(i, [s EXCEPT !.lead = m.from], m)
        ELSE IF m.t = "MsgTimeoutNow" THEN {IF Promotable(s, i) THEN Hup(s, i, "transfer") ELSE Ignore(s)}
+       ELSE IF m.t = "MsgReadIndexResp" THEN {Res([s EXCEPT !.rs = @ \cup {[ctx |-> m.hint, idx |-> m.idx]}], {})}
        ELSE {Ignore(s)}
 
 \* ---- raft.Step: what replica i in state s may do with message m (a set of results)
@@ -330,10 +379,12 @@ MkReady(s, k) ==
       soft == SoftOf(s) # s.pss
   IN [NoRd EXCEPT !.has = TRUE, !.first = s.stable + 1, !.ents = Slice(s, s.stable + 1, Last(s)),
                   !.hsset = hs # s.phs, !.hs = IF hs # s.phs THEN hs ELSE NoHS,
-                  !.snap = s.psnap, !.msgs = s.out,
+                  !.snap = s.psnap, !.msgs = s.out, !.reads = s.rs,
                   !.hfrom = IF k >= HFrom(s) THEN HFrom(s) ELSE 0, !.hto = IF k >= HFrom(s) THEN k ELSE 0,
                   !.soft = soft, !.nl = soft /\ s.role = "L"]
-ReadyNonEmpty(r) == r.soft \/ r.hsset \/ r.snap.idx > 0 \/ Len(r.ents) > 0 \/ r.hto > 0 \/ r.msgs # {}
+ReadyNonEmpty(r) == r.soft \/ r.hsset \/ r.snap.idx > 0 \/ Len(r.ents) > 0 \/ r.hto > 0 \/ r.msgs # {} \/ r.reads # {}
+\* a ReadState handed out with an index below what was reported committed before its request was issued
+StaleReads(s, reads) == {r \in reads : \E q \in s.rq : q.ctx = r.ctx /\ r.idx < q.floor}
 \* conf entries among the handed-out ones, queued for the application
 HandedConfs(s, r) == IF r.hto = 0 THEN <<>>
                      ELSE SelectSeq([k \in 1..(r.hto - r.hfrom + 1) |->
@@ -370,7 +421,7 @@ AdvanceS(s, r) ==
                            ELSE IF r.hto > 0 THEN r.hto ELSE IF r.snap.idx > 0 THEN Max(@, r.snap.idx) ELSE @,
                !.stable = IF ok THEN le ELSE @,
                !.psnap = IF r.snap.idx > 0 /\ s.psnap.idx = r.snap.idx THEN NoSnap ELSE @,
-               !.out = {},
+               !.out = {}, !.rs = @ \ r.reads,
                !.phs = IF r.hsset THEN r.hs ELSE @,
                !.pss = IF r.soft THEN SoftOf(s) ELSE @]
 
@@ -463,7 +514,10 @@ GrantsOf(i, msgs) ==
 (* #### actions #### *)
 (* MC_ZRaft*.tla bound these; CanonFlow gives the messages the model's leader  *)
 (* sends, the trace specification accepts any FlowOK message instead.           *)
-CONSTANTS Collapsed,    \* TRUE: every input runs the whole Ready pipeline atomically
+CONSTANTS LazyApply,    \* TRUE lifts the application contract "configuration changes of a Ready are applied
+                        \* before its messages are sent and it is advanced" (node/raft.go processReady waitApply);
+                        \* only used to study what the raft library alone allows
+          Collapsed,    \* TRUE: every input runs the whole Ready pipeline atomically
           MaxAppEnts    \* entries per MsgApp of the model's leader (MaxSizePerMsg)
 
 Init == /\ st = [i \in Server |-> Blank] /\ dur = [i \in Server |-> NoDur] /\ rdy = [i \in Server |-> NoRd]
@@ -504,6 +558,7 @@ InputStep(i, s, res, extra, consume) ==
              /\ grants' = grants \cup GrantsOf(i, c.r.msgs)
              /\ gapp' = GappAfter(s2, c.r.hfrom, c.r.hto)
              /\ bad' = bad \cup BadAfterInput(i, s, s2, res.resp) \cup BadOfApp(s2, c.r.hfrom, c.r.hto)
+                           \cup (IF StaleReads(s2, c.r.reads) # {} THEN {"stale-read"} ELSE {})
              /\ UNCHANGED rdy
         ELSE /\ st' = [st EXCEPT ![i] = s2]
              /\ bad' = bad \cup BadAfterInput(i, s, s2, res.resp)
@@ -530,6 +585,8 @@ ProposeConf(i, k, x) == /\ Idle(i) /\ st[i].role = "L"
                         /\ LET res == ProposeRes(i, st[i], Ent(0, k, x)) IN
                            /\ res.s # st[i]
                            /\ InputStep(i, st[i], res, CanonFlow(i, st[i], res.s), {})
+ReadIndex(i, c) == /\ Idle(i)
+                   /\ InputStep(i, st[i], ReadReqRes(i, st[i], c, 0), {}, {})
 Transfer(i, x) == /\ Idle(i) /\ st[i].role = "L"
                   /\ LET res == TransferRes(i, st[i], x) IN
                      /\ res.s # st[i]
@@ -550,7 +607,7 @@ TakeReady(i, k) ==
         /\ st' = [st EXCEPT ![i] = s2]
         /\ rdy' = [rdy EXCEPT ![i] = [r EXCEPT !.confs = ConfsOwed(s2, r)]]
         /\ gapp' = GappAfter(s, r.hfrom, r.hto)
-        /\ bad' = bad \cup BadOfApp(s, r.hfrom, r.hto)
+        /\ bad' = bad \cup BadOfApp(s, r.hfrom, r.hto) \cup (IF StaleReads(s, r.reads) # {} THEN {"stale-read"} ELSE {})
         /\ UNCHANGED <<dur, net, leaders, grants, gc, gct, gcq>>
 Persist(i, part) ==
   /\ rdy[i].has /\ st[i].up
@@ -566,13 +623,13 @@ Send(i) ==
   /\ rdy[i].has /\ st[i].up /\ ~rdy[i].sent
   /\ LET r == rdy[i] IN
      /\ (r.pents /\ r.phs) \/ r.nl \/ Mut = "sendbeforepersist"
-     /\ r.confs = 0
+     /\ (r.confs = 0 \/ LazyApply)
      /\ net' = net \cup {o \in r.msgs : o.to # i}
      /\ grants' = grants \cup GrantsOf(i, r.msgs)
      /\ rdy' = [rdy EXCEPT ![i].sent = TRUE]
   /\ UNCHANGED <<st, dur, leaders, gc, gct, gcq, gapp, bad>>
 Advance(i) ==
-  /\ rdy[i].has /\ st[i].up /\ rdy[i].sent /\ rdy[i].pents /\ rdy[i].phs /\ rdy[i].confs = 0
+  /\ rdy[i].has /\ st[i].up /\ rdy[i].sent /\ rdy[i].pents /\ rdy[i].phs /\ (rdy[i].confs = 0 \/ LazyApply)
   /\ st' = [st EXCEPT ![i] = AdvanceS(@, rdy[i])]
   /\ rdy' = [rdy EXCEPT ![i] = NoRd]
   /\ UNCHANGED <<dur, net>> /\ UNCHANGED hvars
@@ -657,6 +714,8 @@ DurableCommit ==
      Cardinality({j \in gcq[k] : HoldsDurably(j, k, gc[k])}) * 2 > Cardinality(gcq[k])
 RestartSound == /\ "restart-commit" \notin bad
                 /\ \A i \in Server : RestartOK(dur[i])
+\* a ReadState (index i) handed out for a request issued at point p: i >= every index reported committed before p
+ReadStateSafety == "stale-read" \notin bad
 \* end of a healed run: every live member of the leader's configuration has applied everything
 AllLiveAppliedAll(ld) ==
   /\ ld \in Server /\ st[ld].up /\ st[ld].role = "L"
